@@ -16,6 +16,8 @@ def opOf (form : String) (a b : Nat) : Option Op :=
   | "unflatten" => some (.unflatten a b)
   | "zip" => some (.zip a b)
   | "eq" | "partial_cmp" | "cmp" => some (.cmp a b)
+  -- comparison with a native array of another length (generated for a ≠ b only)
+  | "eq_native" | "eq_native_rev" | "eq_native_ref" | "lt_native" => some (.cmp a b)
   | "from_array" => some (.fromArray b a)
   | "into_array" => some (.intoArray a b)
   | "from_native" | "into_native" | "ref_native" | "mutref_native" | "asref_native" | "asmut_native" => some (.native b a)
